@@ -88,6 +88,15 @@ class Net:
                     return False
         return True
 
+    def is_valid_shared(self):
+        return self.is_valid()
+
+    def canonical(self):
+        nodes, edges = self.graph()
+        return (tuple(sorted((n, None if o is None else (o, self.origins.get(o)), None if d is None else (d, self.dests.get(d)))
+                             for (n, o, d) in nodes)),
+                tuple(sorted(edges)))
+
     # ---- signature used to count distinct topologies ----
     def signature(self):
         nodes, edges = self.graph()
